@@ -46,6 +46,9 @@ pub trait Unweighted:
     + graaf::Vertices
     + graaf::RemoveArc
     + graaf::Empty
+    + graaf::Converse
+    + graaf::Complement
+    + graaf::Union
 {
     const NAME: &'static str;
     /// Build from a contiguous model. The construction route depends on the
@@ -53,17 +56,47 @@ pub trait Unweighted:
     /// mostly `empty(n)` + `add_arc` in ascending order, sometimes `add_arc`
     /// in a scrambled order, sometimes `From<iterator>` (`build_alt`).
     fn build(m: &Model) -> Self {
-        match route(m, 5) {
-            3 => Self::build_alt(m),
+        let n = m.n();
+        match route(m, 11) {
             4 => {
-                let mut d = Self::empty(m.n());
+                let mut d = Self::empty(n);
                 for (u, v) in arcs_in_some_order(m) {
                     d.add_arc(u, v);
                 }
                 d
             }
+            5 | 6 => Self::build_alt(m),
+            // the digraph as the RESULT of an operation: an algorithm or a
+            // comparison must not care whether its input came from a constructor
+            7 => Self::build_classic(&m.converse()).converse(),
+            8 if n >= 2 => {
+                // union of two parts of different order
+                let k = (n / 2).max(1);
+                let mut low = Model::new(k);
+                let mut rest = Model::new(n);
+                for &(u, v) in m.arcs.keys() {
+                    if u < k && v < k {
+                        low.add(u, v, 1);
+                    } else {
+                        rest.add(u, v, 1);
+                    }
+                }
+                let (a, b) = (Self::build_classic(&low), Self::build_classic(&rest));
+                if route(m, 2) == 0 {
+                    a.union(&b)
+                } else {
+                    b.union(&a)
+                }
+            }
+            9 if n <= 48 => Self::build_classic(&m.complement()).complement(),
+            10 => Self::build_grown(m).unwrap_or_else(|| Self::build_classic(m)),
             _ => Self::build_classic(m),
         }
+    }
+    /// A route only some types have (AdjacencyMap: grown by `add_arc` from a
+    /// single vertex, every endpoint admitted by the call that first names it).
+    fn build_grown(_m: &Model) -> Option<Self> {
+        None
     }
     /// `empty(n)` then `add_arc` in ascending order.
     fn build_classic(m: &Model) -> Self {
@@ -105,6 +138,9 @@ impl Unweighted for AdjacencyMap {
     const NAME: &'static str = "AdjacencyMap";
     fn build_alt(m: &Model) -> Self {
         AdjacencyMap::from(rows(m))
+    }
+    fn build_grown(m: &Model) -> Option<Self> {
+        Some(build_map_any(m))
     }
 }
 
@@ -176,9 +212,18 @@ pub fn build_map_any(m: &Model) -> AdjacencyMap {
 /// arcs are first added with another weight and then re-added (re-adding
 /// replaces the weight); or `From<iterator of weight maps>`.
 fn build_weighted<W: Copy>(m: &Model, conv: impl Fn(i64) -> W, other: W) -> AdjacencyListWeighted<W> {
-    use graaf::{AddArcWeighted, Empty};
+    use graaf::{AddArcWeighted, Converse, Empty};
     assert!(m.is_contig() && m.n() > 0);
-    match route(m, 5) {
+    match route(m, 7) {
+        5 => {
+            // the converse of the converse, i.e. the result of an operation
+            let c = m.converse();
+            let mut d = AdjacencyListWeighted::<W>::empty(m.n());
+            for (&(u, v), &w) in &c.arcs {
+                d.add_arc_weighted(u, v, conv(w));
+            }
+            d.converse()
+        }
         3 => {
             let rows: Vec<BTreeMap<usize, W>> = (0..m.n()).map(|u| m.out_w(u).into_iter().map(|(v, w)| (v, conv(w))).collect()).collect();
             AdjacencyListWeighted::from(rows)
